@@ -21,7 +21,8 @@ ProbGrid == << <<0, 1>>, <<1, 1000000>>, <<1, 4>>, <<1, 2>>, <<3, 4>>, <<999999,
 RealGrid == << <<-2, 1>>, <<-1, 4>>, <<0, 1>>, <<1, 1000000>>, <<1, 2>>, <<1, 1>>, <<3, 1>> >>
 GridOf(obj) == IF obj \in Probabilistic THEN ProbGrid ELSE RealGrid
 
-Clamps == << <<>>, <<Const(-1, 2), Const(1, 2)>>, <<Const(-1000000000, 1), Const(1, 4)>>, <<Zero, Zero>> >>
+\* none / symmetric / one-sided with an infinite bound (Const(+-1, 0) evaluates to +-infinity) / degenerate
+Clamps == << <<>>, <<Const(-1, 2), Const(1, 2)>>, <<Const(-1, 0), Const(1, 4)>>, <<Const(-1, 4), Const(1, 0)>>, <<Zero, Zero>> >>
 
 \* data of element i for grid rotation (a, b): all 49 (target, prediction) pairs appear for single-element shapes
 TIdx(a, i) == ((a + i - 1) % 7) + 1
